@@ -2,6 +2,7 @@ import IofloModel.Lemmas.Clones
 import IofloModel.Lemmas.ClonesLeaf
 import IofloModel.Lemmas.ClonesRaze
 import IofloModel.Lemmas.ClonesTree
+import IofloModel.Lemmas.ClonesRear
 /-!
 # C12 — cloned framers run like their originals and never share relative state; rear and raze
 
@@ -889,6 +890,132 @@ example : ((resolveMoot 0 exRearHouse ("c1", { original := "ma", clone := "c1", 
     (fun s => (s.names.map (·.1), (s.get? 2).map (fun o => [o.name, o.inode] ++ o.lineage),
                (s.get? 2).map (fun o => [o.original, o.insular, o.razeable]))))
     = some (["ha", "ma", "ha_c1"], some ["ha_c1", "zed", "ma"], some [false, false, false]) := by decide +kernel
+
+/-! ## rear, run, raze: the round trip -/
+
+/-- **`Rearer.action`, exactly** (PARTIAL: the moot has neither clone clauses nor aux links).  At run time (both
+worklists empty, the class registries pointing at the rearing framer's house) a successful rear is `rearCreate` — fresh
+tag, free name `surname_tag`, one new object, one new entry in the frame's aux list and in the framer's `auxes` —
+followed by steps that touch nothing but the new clone and the store (its presolve and resolve), and the worklists are
+empty again. -/
+theorem C12_rear_is_create_then_quiet_partial (u : Nat) (fn moot F : String) (s0 s2 : St) (me : Fr) (af : Frame)
+    (hme : s0.get? u = some me) (hh : s0.cur = me.house) (haf : me.frame? fn = some af)
+    (hout : af.outline.contains F = false)
+    (hw : s0.presolvables = [] ∧ s0.resolvables = [])
+    (hfresh : s0.get? s0.nextUid = none)
+    (hm : ∀ orig, resolveFramer s0 moot none = .ok orig → orig.moots = [] ∧ ∀ f ∈ orig.frames, f.links = [])
+    (h : rear u fn moot F s0 = .ok s2) :
+    ∃ s1 c, rearCreate u moot F s0 = .ok (s1, c) ∧ Quiet c.uid s1 s2 ∧ s2.presolvables = [] ∧ s2.resolvables = [] :=
+  rear_quiet u fn moot F s0 s2 me af hme hh haf hout hw hfresh hm h
+
+/-- **Rear → raze round trip** (PARTIAL: the moot has neither clone clauses nor aux links and its clone runs as a
+framer object without auxiliaries, `LeafObj`).  Framer `u` rears a clone of `moot` into its frame `F`; then anything
+happens that touches only the clone and the store (`Quiet`: by `C12_leaf_touches_only_itself` every entry, recur, segue
+and exit of the clone is of this kind); then the prune step that `Razer.action` and `Framer.prune` run on the clone.
+Afterwards the name registry, the class pointers and the other houses' registries are EXACTLY those before the rear, and
+every framer object that existed before the rear — the rearing framer with the aux list of `F` and its tag table
+included — is EXACTLY as it was before the rear; the clone is left inactive and its name is free, so the next rear
+finds the same tag and the same name free. -/
+theorem C12_rear_raze_roundtrip_partial (lo' : Ops) (u : Nat) (fn moot F : String) (s0 s2 : St) (me : Fr) (af : Frame)
+    (hme : s0.get? u = some me) (hh : s0.cur = me.house) (haf : me.frame? fn = some af)
+    (hout : af.outline.contains F = false)
+    (hw : s0.presolvables = [] ∧ s0.resolvables = [])
+    (hfresh : s0.get? s0.nextUid = none)
+    (hnc : ∀ f ∈ me.frames, s0.nextUid ∉ f.auxes)
+    (hm : ∀ orig, resolveFramer s0 moot none = .ok orig → orig.moots = [] ∧ ∀ f ∈ orig.frames, f.links = [])
+    (h : rear u fn moot F s0 = .ok s2) :
+    ∃ c : Nat, c = s0.nextUid ∧ (∃ oc, s2.get? c = some oc) ∧
+      ∀ s2' s3, Quiet c s2 s2' → LeafObj s2' c → pruneStep (nextOps lo') u F c s2' = .ok s3 →
+        s3.names = s0.names ∧ s3.cur = s0.cur ∧ s3.regs = s0.regs ∧
+        (∀ v, v ≠ c → s3.get? v = s0.get? v) ∧
+        (∃ oc, s3.get? c = some oc ∧ oc.ctl.active = none ∧ lookup s3.names oc.name = none) := by
+  obtain ⟨s1, c, hc, hq, _, _⟩ := rear_quiet u fn moot F s0 s2 me af hme hh haf hout hw hfresh hm h
+  obtain ⟨_, _, _, _, _, _, hcu, _, _, _, _, _, _, ⟨c', hc', _⟩, _⟩ := rearCreate_exact u moot F s0 s1 c hfresh hc
+  refine ⟨c.uid, hcu, ?_, ?_⟩
+  · obtain ⟨o2, ho2, _⟩ := hq.self c' hc'
+    exact ⟨o2, ho2⟩
+  · intro s2' s3 hq' hl hp
+    obtain ⟨r1, r2, r3, r4, ⟨oc, r5, r6, r7⟩, r8⟩ :=
+      rear_raze_roundtrip lo' u moot F s0 s1 s2' s3 c hfresh
+        (fun me' f hme' hf => by rw [hme] at hme'; injection hme' with hme'; subst hme'; exact hnc f hf)
+        hc (hq.trans hq') hl hp
+    exact ⟨r1, r2, r3, r4, oc, r5, r6, by rw [r7]; exact r8⟩
+
+/-- the same through `Razer.action` when the reared clone is what it selects in `F` -/
+theorem C12_rear_razer_roundtrip_partial (lo' : Ops) (u : Nat) (fn moot F : String) (who : Who) (s0 s2 : St) (me : Fr)
+    (af : Frame) (hme : s0.get? u = some me) (hh : s0.cur = me.house) (haf : me.frame? fn = some af)
+    (hout : af.outline.contains F = false)
+    (hw : s0.presolvables = [] ∧ s0.resolvables = [])
+    (hfresh : s0.get? s0.nextUid = none)
+    (hnc : ∀ f ∈ me.frames, s0.nextUid ∉ f.auxes)
+    (hm : ∀ orig, resolveFramer s0 moot none = .ok orig → orig.moots = [] ∧ ∀ f ∈ orig.frames, f.links = [])
+    (h : rear u fn moot F s0 = .ok s2) :
+    ∀ s2' s3 f', Quiet s0.nextUid s2 s2' → LeafObj s2' s0.nextUid → s2'.frameOf u F = .ok f' →
+      razeables s2' who f'.auxes = [s0.nextUid] → raze (nextOps lo') u who F s2' = .ok s3 →
+        s3.names = s0.names ∧ s3.cur = s0.cur ∧ s3.regs = s0.regs ∧ (∀ v, v ≠ s0.nextUid → s3.get? v = s0.get? v) := by
+  obtain ⟨c, hc, _, hall⟩ := C12_rear_raze_roundtrip_partial lo' u fn moot F s0 s2 me af hme hh haf hout hw hfresh hnc hm h
+  subst hc
+  intro s2' s3 f' hq hl hf hrz hr
+  unfold raze at hr
+  rw [hf] at hr
+  simp only [hrz, forEach] at hr
+  cases hp : pruneStep (nextOps lo') u F s0.nextUid s2' with
+  | error e => simp [hp] at hr
+  | ok s3' =>
+    simp only [hp] at hr
+    injection hr with hr
+    subst hr
+    obtain ⟨r1, r2, r3, r4, _⟩ := hall s2' s3' hq hl hp
+    exact ⟨r1, r2, r3, r4⟩
+
+/-! non-vacuity: host `ha` rears the moot `mr` into `f1`, the clone is presolved and resolved, and the prune step
+gives the registry and both earlier objects back -/
+
+def exRoundHouse : St :=
+  { objs := [{ uid := 0, house := "verif", name := "ha", tag := "ha", sched := .active, inode := "", first := "f0", presolved := true,
+               resolved := true,
+               frames := [{ name := "f0", inode := "", over := none, next := some "f1", outline := ["f0"], links := [],
+                            items := [.act .enter (.rear "mr" "f1")] },
+                          { name := "f1", inode := "", over := none, next := none, outline := ["f1"], links := [],
+                            items := [] }] },
+             { uid := 1, house := "verif", name := "mr", tag := "mr", sched := .moot, inode := "", first := "a0",
+               frames := [{ name := "a0", inode := "", over := none, next := none, links := [],
+                            items := [.act .enter (.record "e"), .act .recur (.record "r")] }] }],
+    names := [("ha", 0), ("mr", 1)], cur := "verif", houses := ["verif"], nextUid := 2 }
+
+example : (rear 0 "f0" "mr" "f1" exRoundHouse).toOption.map (fun s => (s.names, s.presolvables, s.resolvables))
+    = some ([("ha", 0), ("mr", 1), ("ha_mr1", 2)], [], []) := by decide +kernel
+
+example : (rear 0 "f0" "mr" "f1" exRoundHouse).toOption.map
+    (fun s => ((s.get? 2).map (fun o => (o.name, o.resolved)), (s.frameOf 0 "f1").toOption.map (·.auxes)))
+    = some (some ("ha_mr1", true), some [2]) := by decide +kernel
+
+example : ((rear 0 "f0" "mr" "f1" exRoundHouse).bind (pruneStep (nextOps Ops.bottom) 0 "f1" 2)).toOption.map
+    (fun s => (s.names == exRoundHouse.names, s.get? 0 == exRoundHouse.get? 0, s.get? 1 == exRoundHouse.get? 1,
+               (s.get? 2).map (·.ctl.active)))
+    = some (true, true, true, some none) := by decide +kernel
+
+/-- **Rear → raze → rear: the second rear makes the same clone** (PARTIAL: the first clone runs as a framer object
+without auxiliaries).  After the round trip of `C12_rear_raze_roundtrip_partial` a second `rear` of the same moot into
+the same frame gives a clone with the tag, the name, the definition, the flags, the main frame and the (initial) control
+state of the first one; only the object identity is new. -/
+theorem C12_second_rear_like_first_partial (lo' : Ops) (u : Nat) (moot F : String) (s0 s1 s2 s3 s4 : St) (c c2 : Fr)
+    (hfresh : s0.get? s0.nextUid = none)
+    (hnc : ∀ me f, s0.get? u = some me → f ∈ me.frames → s0.nextUid ∉ f.auxes)
+    (hc : rearCreate u moot F s0 = .ok (s1, c))
+    (hq : Quiet c.uid s1 s2) (hl : LeafObj s2 c.uid)
+    (hp : pruneStep (nextOps lo') u F c.uid s2 = .ok s3)
+    (hfresh3 : s3.get? s3.nextUid = none)
+    (h3 : rearCreate u moot F s3 = .ok (s4, c2)) :
+    c2.name = c.name ∧
+    ∃ o1 o2, s1.get? c.uid = some o1 ∧ s4.get? c2.uid = some o2 ∧ o2.name = o1.name ∧ o2.tag = o1.tag ∧
+      o2.frames = o1.frames ∧ o2.main = o1.main ∧ o2.original = o1.original ∧ o2.insular = o1.insular ∧
+      o2.razeable = o1.razeable ∧ o2.ctl = o1.ctl := by
+  obtain ⟨r1, _, _, r4, _, _⟩ := rear_raze_roundtrip lo' u moot F s0 s1 s2 s3 c hfresh hnc hc hq hl hp
+  exact second_rear_like_first u moot F s0 s1 s3 s4 c c2 hfresh hfresh3 r1 r4 hc h3
+
+example : (((rear 0 "f0" "mr" "f1" exRoundHouse).bind (pruneStep (nextOps Ops.bottom) 0 "f1" 2)).bind
+    (fun s => (rearCreate 0 "mr" "f1" s).map (fun r => (r.2.name, r.2.uid)))).toOption = some ("ha_mr1", 3) := by decide +kernel
 
 /-! ## trees of clones: a clone that carries clones runs like its original -/
 
